@@ -10,7 +10,7 @@ from vf.inputs import Inputs, term, same
 from vf.proxy import SymStr
 from contracts import stubs
 stubs.install_driver_stubs()
-from contracts import c01, c06, c24, c25, c29
+from contracts import c01, c06, c24, c25, c29, c35
 from contracts import c02_strings as STR
 from contracts import c02_dates as DT
 from pony.orm import sqlbuilding as sb
@@ -58,6 +58,7 @@ CONTRACTS = (_pick(c01, ['truth_test_and_not', 'CmpMonad.negate'])
              + _pick(c25, ['SQLBuilder.STRING_SLICE', 'SQLiteBuilder.STRING_SLICE', 'StringMixin.__getitem__'])
              + _pick(c06, ['Value.quote_str', 'StringMixin._like', 'SQLBuilder.MOD'])
              + _pick(c24, ['construct_sql_ast.LIMIT'])
+             + _pick(c35, ['SELECT_FOR_UPDATE'])               # locking form of a query per dialect: the same rows in the same order (Oracle rewrites ROWNUM windows), shared with C35
              + _pick(c29, ['ArrayMixin.__getitem__'])          # array subscripts and slices per dialect (1-based PostgreSQL arithmetic), shared with C29
              + [Contract('Value.__str__.scalars', ['pony.orm.sqlbuilding:Value.__str__', 'pony.orm.dbproviders.postgres:PGValue.__str__'], _val_configs, _val_case,
                          [('booleans_null_and_integers_rendered_per_dialect', _val_spec)]),
